@@ -10,7 +10,7 @@ struct z_stream_model { unsigned int avail_in; const unsigned char *next_in; uns
 static struct { unsigned long inflated, written, pending; _Bool stream_end_seen, last_was_stream_end, must_raise, init_called, gzip_only; size_t last_got; const unsigned char *outbuf;
                 /* termination ghosts: bytes of the (finite) compressed file not yet read; bytes the (finite) decompressed stream still
                    has to deliver; whether inflate was called once more after it had reported the end of the stream */
-                unsigned long file_left, out_left; _Bool called_after_end; } GZ;
+                unsigned long file_left, out_left; _Bool called_after_end; unsigned long reads; } GZ;
 static unsigned long h_outer0;      /* the outer loop's measure at the start of the current round (set by an extraction rule) */
 #define GZ_PHASE_ (!GZ.stream_end_seen ? 2ul : !GZ.called_after_end ? 1ul : 0ul)
 #define GZ_M_OUT_ (3ul * (GZ.file_left + GZ.out_left) + GZ_PHASE_)
@@ -22,10 +22,12 @@ static size_t gz_fread(void *p, size_t sz, size_t n, struct gzFILE *f)
   __CPROVER_assert(sz == 1 && n == 512, "model: fread(input_buffer, 1, 512, f)");
   __CPROVER_assume(got <= n && got <= GZ.file_left);          /* the file is finite */
   __CPROVER_assert(!GZ.must_raise, "C10: after an error from inflate no further input is read (the error is raised)");
-  GZ.last_got = got; GZ.file_left -= got;
+  GZ.last_got = got; GZ.file_left -= got; if (GZ.reads < 1000) GZ.reads++;
   return got;
 }
 static int gz_ferror(struct gzFILE *f) { (void)f; return nondet_bool(); }
+/* feof: set once a read has delivered fewer bytes than asked for */
+static int gz_feof(struct gzFILE *f) { (void)f; return GZ.last_got < 512 && GZ.reads > 0; }
 /* zlib.h: inflate() consumes at most avail_in bytes, produces at most avail_out bytes (updating the four fields),
    and returns Z_OK, Z_STREAM_END, Z_NEED_DICT, Z_DATA_ERROR, Z_STREAM_ERROR, Z_MEM_ERROR or Z_BUF_ERROR (no
    progress possible) */
